@@ -413,6 +413,14 @@ class SeqState(object):
             msgs += self._unchanged(readonly, list(op))
             for s in changed:
                 msgs += [(c, 'after %s: %s' % (list(op), txt)) for c, txt in compare(real[s], ref[s], s)]
+        else:
+            # an unjudged prefix is still *observed* the way a judged one is: reading a monitor is part of the
+            # history (a read that leaves something behind in the object must be met by the ops that follow)
+            for s in 'AB':
+                try:
+                    len(real[s]); real[s].x; real[s].y; real[s].id
+                except Exception:
+                    pass
         return msgs, label, nontrivial, False
 
     def _unchanged(self, readonly, what):
